@@ -19,7 +19,7 @@ SPEC_BUILTINS = {
     "allocated", "content_unchanged", "field_unchanged", "is_none", "not_none", "seq_len", "seq_at", "disjoint",
     "mmap_of", "mset_of", "let", "Real", "Int", "TRUE", "FALSE", "INF", "null", "mset_remove", "same_object",
     "is_open_state", "lemma", "select", "store", "trunc0", "cls_of", "idiv", "imod", "to_real", "to_int", "floor",
-    "inflt", "clock", "at_suspend", "ENTRY", "mkval", "mset_single", "mmap_empty", "mmap_put", "pure_call", "unchanged_except", "xor", "distinct",
+    "inflt", "clock", "at_suspend", "ENTRY", "mkval", "val_at", "mset_single", "mmap_empty", "mmap_put", "pure_call", "unchanged_except", "xor", "distinct",
 }
 
 unit = z3.Function("unit", z3.IntSort(), z3.RealSort())
@@ -32,6 +32,18 @@ card_ref = z3.Function("card_ref", z3.ArraySort(RefS, z3.BoolSort()), z3.IntSort
 str_concat = z3.Function("str_concat", StrS, StrS, StrS)
 str_of_real = z3.Function("str_of_real", z3.RealSort(), StrS)
 str_of_int = z3.Function("str_of_int", z3.IntSort(), StrS)
+
+owner_obj = z3.Function("owner_obj", RefS, RefS)
+owner_fld = z3.Function("owner_fld", RefS, z3.IntSort())
+owner_key = z3.Function("owner_key", RefS, StrS)
+_FIELD_IDS = {}
+
+
+def field_id(attr):
+    if attr not in _FIELD_IDS:
+        _FIELD_IDS[attr] = len(_FIELD_IDS) + 1
+    return z3.IntVal(_FIELD_IDS[attr])
+
 
 QFUNS = {"q_down": q_down, "q_up": q_up, "q_he": q_he}
 
